@@ -475,20 +475,45 @@ def probe_cell(lemma, cell):
     return res
 
 
-def native_replay(lemma, cell, holes, clause, timeout_s=5.0, props=None):
-    """re-run the lemma body natively on the real modules with the holes bound to `holes`"""
+_NATIVE_RUNS = {}
+
+
+def _native_run(lemma, cell, holes):
+    """one native execution of the cell body per (cell, holes): a concrete cell that checks many inputs is replayed once, not once
+    per failing clause (the run is deterministic: same tree, same holes)"""
+    try:
+        key = (lemma.name, cell["id"], json.dumps(holes, sort_keys=True, default=str))
+    except Exception:  # noqa
+        key = None
+    if key is not None and key in _NATIVE_RUNS:
+        return _NATIVE_RUNS[key]
     env = NativeEnv(holes)
-    out = {"native": "not-run", "signature": None, "info": {}}
+    res = ("ok", env, None)
     try:
         lemma.run(env, cell)
     except (PathAbort,):
-        out["native"] = "precondition-not-met"
-        return out
+        res = ("precondition-not-met", env, None)
     except StopPath:
         pass
     except Exception as e:  # noqa
+        res = ("replay-error", env, {"error": "%s: %s" % (type(e).__name__, e), "tb": traceback.format_exc()[-800:]})
+    if key is not None:
+        if len(_NATIVE_RUNS) > 64:
+            _NATIVE_RUNS.clear()
+        _NATIVE_RUNS[key] = res
+    return res
+
+
+def native_replay(lemma, cell, holes, clause, timeout_s=5.0, props=None):
+    """re-run the lemma body natively on the real modules with the holes bound to `holes`"""
+    out = {"native": "not-run", "signature": None, "info": {}}
+    status, env, err = _native_run(lemma, cell, holes)
+    if status == "precondition-not-met":
+        out["native"] = "precondition-not-met"
+        return out
+    if status == "replay-error":
         out["native"] = "replay-error"
-        out["info"] = {"error": "%s: %s" % (type(e).__name__, e), "tb": traceback.format_exc()[-800:]}
+        out["info"] = err
         return out
     out["info"] = env.info
     fails = [o for o in env.outcomes if o.status == "failed"]
